@@ -153,12 +153,68 @@ def callform (j : Json) : R Json := do
       return ftOut encScalar (q.effectiveEnergy (← parseFT (← fld j "x") n) y)
     | _ => throw s!"c05.callform: unknown fn {fn}"
 
+/-- op `c05.sample_step`: one public one-step sampler on ONE row, replayed on recorded draws (`QV.sampleCall` through
+`RBM.sampleH/sampleV`, `PRBM.sampleH/sampleA/sampleV`).
+in : kind ("rbm"|"prbm"), fn ("h_given_v"|"v_given_h"|"a_given_v"|"v_given_ha"), n, h, a, p, x (input row, bit patterns),
+     y (aux row for v_given_ha), out (null | {"id", "data"}: the caller's buffer object and its contents before the call),
+     fresh, draws (0/1).
+out: {"short": true} when the recording is too short, else result_id, result (contents, bit patterns), out_id / out (the caller's
+     buffer after the call; null when none was passed), probs (probabilities presented), rest (number of unused draws). -/
+def sampleStep (j : Json) : R Json := do
+  let kind ← jStr (← fld j "kind")
+  let fn ← jStr (← fld j "fn")
+  let n ← jNat (← fld j "n")
+  let h ← jNat (← fld j "h")
+  let fresh ← jNat (← fld j "fresh")
+  let draws := (← (← jArr (← fld j "draws")).mapM jBit).toList
+  let parseOut (m : Nat) : R (Option (Buf (Fin m → Float))) :=
+    match fldOpt j "out" with
+    | none => pure none
+    | some o => do
+      let d ← jFloatArr (← fld o "data")
+      checkVec d m "out.data"
+      return some ⟨← jNat (← fld o "id"), true, vecFn d m⟩
+  let fin {m : Nat} (r : Option (StepResult (Fin m → Float) × List Float × List Bool)) : Json :=
+    match r with
+    | none => Json.mkObj [("short", .bool true)]
+    | some (res, ps, rest) =>
+      Json.mkObj [("result_id", nOut res.result.id), ("result", fRowOut res.result.data),
+        ("out_id", match res.out with | some o => nOut o.id | none => .null),
+        ("out", match res.out with | some o => fRowOut o.data | none => .null),
+        ("probs", fListOut ps), ("rest", nOut rest.length)]
+  if kind == "rbm" then
+    let r ← parseRBM (← fld j "p") n h
+    match fn with
+    | "h_given_v" => do
+      let x ← jFloatArr (← fld j "x"); checkVec x n "x"
+      return fin ((r.sampleH (vecFn x n) fresh (← parseOut h)).run draws)
+    | "v_given_h" => do
+      let x ← jFloatArr (← fld j "x"); checkVec x h "x"
+      return fin ((r.sampleV (vecFn x h) fresh (← parseOut n)).run draws)
+    | _ => throw s!"c05.sample_step: unknown fn {fn}"
+  else
+    let a ← jNat (← fld j "a")
+    let q ← parsePRBM (← fld j "p") n h a
+    match fn with
+    | "h_given_v" => do
+      let x ← jFloatArr (← fld j "x"); checkVec x n "x"
+      return fin ((q.sampleH (vecFn x n) fresh (← parseOut h)).run draws)
+    | "a_given_v" => do
+      let x ← jFloatArr (← fld j "x"); checkVec x n "x"
+      return fin ((q.sampleA (vecFn x n) fresh (← parseOut a)).run draws)
+    | "v_given_ha" => do
+      let x ← jFloatArr (← fld j "x"); checkVec x h "x"
+      let y ← jFloatArr (← fld j "y"); checkVec y a "y"
+      return fin ((q.sampleV (vecFn x h) (vecFn y a) fresh (← parseOut n)).run draws)
+    | _ => throw s!"c05.sample_step: unknown fn {fn}"
+
 def handle (op : String) (j : Json) : Option (R Json) :=
   match op with
   | "c05.cond" => some (cond j)
   | "c05.callform" => some (callform j)
   | "c05.kernel" => some (kernel j)
   | "c05.replay" => some (replay j)
+  | "c05.sample_step" => some (sampleStep j)
   | _ => none
 
 end Drv.C05
